@@ -11,6 +11,8 @@ with single evaluations on fresh operators:
   (d) histories  explicit-state search over call / fault histories against one cache directory in lock-step with a
                  dictionary model of the cache.
 Out of scope by the property's wording: operators with different quad_order / pw_exact sharing one directory."""
+import contextlib
+import io
 import itertools
 import math
 import os
@@ -1222,6 +1224,52 @@ def call_history_task(lin_ok):
     return out
 
 
+def long_list_task(item):
+    """Key faithfulness for LONG element lists (more entries than any abbreviated printing keeps): against ONE cache directory,
+    cold and warm requests of list A (N elements), B = A with the two middle elements exchanged, C = A with the middle element
+    replaced by an element outside A - same shape, same first and last elements.  Every result must equal the entry-wise
+    single evaluations of the list requested; a fresh operator object per call (as in the other cache clauses)."""
+    N, lt, lx = item
+    from mc import universe as U_
+    from src.single_layer import SingleLayerOperator
+    out = {'n': 0, 'viols': [], 'files': None}
+    m = U_.level_mesh('UnitSquare', (0., 1.), lt, lx)
+    els = sorted(m.leaf_elements, key=rect)
+    if len(els) < N + 1:
+        raise HarnessError('mesh too small for the long-list clause')
+    A = els[:N]
+    B = list(A)
+    B[N // 2], B[N // 2 + 1] = B[N // 2 + 1], B[N // 2]
+    C = list(A)
+    C[N // 2] = els[N]
+    trial = [els[0], els[-1]]
+    ref = SingleLayerOperator(m)
+    row = {id(e): [ref.bilform(tr, e) for tr in trial] for e in els[:N + 1]}
+    if row[id(A[N // 2])] == row[id(A[N // 2 + 1])] or row[id(A[N // 2])] == row[id(els[N])]:
+        raise HarnessError('long-list variants have equal reference rows - a shared entry would go unnoticed')
+    d = faultfs.tmpdir()
+    try:
+        for step, (lab, L) in enumerate((('A', A), ('B', B), ('C', C), ('A', A), ('B', B), ('C', C))):
+            out['n'] += 1
+            try:
+                with contextlib.redirect_stdout(io.StringIO()):
+                    got = np.asarray(SingleLayerOperator(m, cache_dir=d).bilform_matrix(L, list(trial)))
+                want = np.array([row[id(e)] for e in L], dtype=float)
+                bad = None if (got.shape == want.shape and np.array_equal(got, want)) else '{} rows differ from the entry-wise single evaluations'.format(
+                    int(np.sum(np.any(got != want, axis=1))) if got.shape == want.shape else 'shape {} -'.format(got.shape))
+            except Exception as ex:  # noqa: BLE001
+                bad = 'raised {!r}'.format(ex)
+            if bad and len(out['viols']) < 3:
+                out['viols'].append(({'clause': 'long-list', 'fn': 'bilform_matrix'},
+                                     'request {} of the history [A, B, C, A, B, C] against one cache directory, list {} of {} elements x 2 (B = A with the two middle '
+                                     'elements exchanged, C = A with the middle element replaced): {}; files in the directory: {}'.format(step + 1, lab, N, bad, len(faultfs.listing(d))),
+                                     {'kind': 'long-list', 'N': N, 'lt': lt, 'lx': lx}))
+        out['files'] = len(faultfs.listing(d))
+    finally:
+        faultfs.rmtree(d)
+    return out
+
+
 def run(ctx):
     P = PARAMS[ctx.tier]
     notes = {}
@@ -1324,6 +1372,14 @@ def run(ctx):
     for key, what, rep in hres['viols']:
         ctx.violation(key, what, rep)
     ctx.note('pool call histories with in-place mutated lists: {} calls'.format(hres['n']))
+    # ---- long element lists against one cache directory (fresh processes)
+    ll_items = [(300, 3, 4)] if ctx.tier == 'quick' else [(120, 3, 4), (300, 3, 4), (1100, 4, 5)]
+    ll_calls = 0
+    for it_, lres in zip(ll_items, common.pmap_fresh(long_list_task, ll_items, ctx.jobs)):
+        ll_calls += lres['n']
+        for key, what, rep in lres['viols']:
+            ctx.violation(key, what, rep)
+    ctx.note('long-list cache histories: {} calls (list lengths {})'.format(ll_calls, [i[0] for i in ll_items]))
     # ---- aggregate
     agg = {}
     samples = []
@@ -1439,7 +1495,7 @@ def run(ctx):
         ctx.note('uncontrolled genuine multiprocessing pools were created by the code under test: {}'.format(acct['uncontrolled']))
     prefixes = sum(v for k, v in scopes.items())
     cov = {
-        'evaluations': int(evaluations) + hres['n'], 'pool_call_history_calls': hres['n'],
+        'evaluations': int(evaluations) + hres['n'] + ll_calls, 'pool_call_history_calls': hres['n'], 'long_list_cache_history_calls': ll_calls, 'long_list_lengths': [i[0] for i in ll_items],
         'distinct_nontrivial': int(distinct),
         'rule': 'evaluations = calls into bilform_matrix / linform_vector / estimate_* plus history transitions, each compared bitwise '
                 'with single evaluations on fresh operators. distinct_nontrivial counts distinct (function, shape, cpu, schedule, list '
@@ -1581,6 +1637,11 @@ def replay(ctx, data):
     problems = []
     if data.get('kind') == 'call-history':
         r = call_history_task(not linform_status())
+        for key, what, rep in r['viols']:
+            print('  ', what)
+        return not r['viols']
+    if data.get('kind') == 'long-list':
+        r = long_list_task((data['N'], data['lt'], data['lx']))
         for key, what, rep in r['viols']:
             print('  ', what)
         return not r['viols']
